@@ -10,12 +10,16 @@ BUDGET = {"quick": 300, "thorough": 48000}
 REQUIRED = {
     "quick": {"callbacks_observed": 20000, "class/run_with_self_trade": 20,
               "class/run_with_round_of_3plus_fills": 20, "class/run_with_hft_path_events": 50,
-              "class/run_with_normal_path_events": 100, "holdings_checked_at_fill_callback": 3000},
+              "class/run_with_normal_path_events": 100, "holdings_checked_at_fill_callback": 3000,
+              "class/run_with_fills_under_a_trading_halt_rule": 15},
     "thorough": {"callbacks_observed": 500000, "class/run_with_self_trade": 500,
                  "class/run_with_round_of_3plus_fills": 500, "class/run_with_hft_path_events": 1500,
-                 "class/run_with_normal_path_events": 3000, "holdings_checked_at_fill_callback": 80000},
+                 "class/run_with_normal_path_events": 3000, "holdings_checked_at_fill_callback": 80000,
+                 "class/run_with_fills_under_a_trading_halt_rule": 400},
 }
 
 
 def extra_checks(case, res, out, mon):
-    pass
+    cfg = case.get("config", {})
+    if "HALT" in cfg and out.fills:
+        res.count("class/run_with_fills_under_a_trading_halt_rule")
